@@ -222,6 +222,80 @@ Fixpoint supersede_scan (p : path) (n : nat) (q : list omsg) : list omsg :=
     end
   end.
 
+(* ------------------------------------------------------------------ SETDATANODE_FLAG_ENABLESUPERCEDE *)
+
+Definition with_sv (b : bserver) (sv : server) : bserver := mkB sv (b_gws b) (b_last b).
+
+(* the supersede step of NodeChangedAux (395-411) for subscriber s: PruneSubscriptionMessage on the pending Message; when
+   that fails, the scan of s's own outgoing queue *)
+Definition prune_for (b : bserver) (s : sid) (p : path) : bserver :=
+  match get_session (b_sv b) s with
+  | None => b
+  | Some ss =>
+    match (match s_pending ss with Some pd => prune_di pd p | None => None end) with
+    | Some pd' => with_sv b (upd_session (b_sv b) s (fun x => set_pending x (Some pd')))
+    | None => set_queue b s (supersede_scan p (length (queue_of b s)) (queue_of b s))
+    end
+  end.
+
+(* NodeChangedAux(node, data, {ENABLESUPERCEDE?}) of subscriber s, node not being removed *)
+Definition bnca_set (b : bserver) (s : sid) (p : path) (d : payload) (sup : bool) : bserver :=
+  let b1 := if sup then prune_for b s p else b in
+  absorb b1 (node_changed_aux (b_sv b1) s p d false).
+
+(* NodeChanged(modifiedNode, oldData, {ENABLESUPERCEDE?}) of subscriber s (the filter enter/leave logic of Server.node_changed) *)
+Definition bnode_changed (b : bserver) (s : sid) (p : path) (d : payload) (old : option payload) (sup : bool) : bserver :=
+  match get_session (b_sv b) s with
+  | None => b
+  | Some ss =>
+    let subs := s_subs ss in
+    if N.ltb 0 (m_nfilters subs) then
+      let before := matches_node subs p old 0 in
+      let now := matches_node subs p (Some d) 0 in
+      match old with
+      | Some _ => if now then bnca_set b s p d sup
+                  else if before then absorb b (node_changed_aux (b_sv b) s p d true) else b
+      | None => if now then bnca_set b s p d sup else b
+      end
+    else bnca_set b s p d sup
+  end.
+
+Definition bnotify_changed (b : bserver) (by_ : sid) (p : path) (d : payload) (old : option payload) (sup : bool) : bserver :=
+  match find_node (sv_tree (b_sv b)) p with
+  | None => b
+  | Some n =>
+    fold_left (fun b' kc => if N.eqb (fst kc) by_ then b' else bnode_changed b' (fst kc) p d old sup) (n_subs n) b
+  end.
+
+(* SetDataNode (459) with the supersede bit: as Server.set_data_loop; only DataNode::SetData on the last clause carries the bit *)
+Fixpoint bset_data_loop (b : bserver) (by_ : sid) (pp : path) (cl : list name) (d : payload)
+         (dontcreate dontoverwrite quiet sup : bool) : bserver :=
+  match cl with
+  | [] => b
+  | k :: rest =>
+    let last := match rest with [] => true | _ => false end in
+    let p := pp ++ [k] in
+    let sv := b_sv b in
+    match find_node (sv_tree sv) p with
+    | Some n =>
+      if last then
+        if dontoverwrite then b
+        else
+          let b1 := with_sv b (set_tree sv (set_data (sv_tree sv) p d)) in
+          if quiet then b1 else bnotify_changed b1 by_ p d (Some (n_data n)) sup
+      else bset_data_loop b by_ p rest d dontcreate dontoverwrite quiet sup
+    | None =>
+      if dontcreate then b
+      else if Nat.leb max_node_depth (length pp) then b
+      else
+        let d0 := if last then d else empty_payload in
+        let sv1 := set_tree sv (add_node (sv_tree sv) (mkNode p d0 (new_node_table sv p))) in
+        if last then (if quiet then with_sv b sv1 else bnotify_changed (with_sv b sv1) by_ p d0 None sup)
+        else bset_data_loop (if quiet then with_sv b sv1 else absorb b (notify_changed sv1 by_ p d0 None false))
+                            by_ p rest d dontcreate dontoverwrite quiet sup
+    end
+  end.
+
 (* ------------------------------------------------------------------ PR_COMMAND_GETDATATREES (590-607) *)
 
 (* GetSubtreesCallback: own nodes are skipped (no index, no reflect-to-self), every other matched node becomes a field *)
@@ -326,6 +400,7 @@ Definition leave_node (by_ : sid) (notify : bool) (sv : server) (q : path) : ser
 
 Inductive bcmd :=
 | BBase (c : cmd)                                             (* the commands of Server.v *)
+| BSetSup (flags : N) (items : list (list name * payload))    (* PR_COMMAND_SETDATA with SETDATANODE_FLAG_ENABLESUPERCEDE *)
 | BPing (tag : N)                                             (* PR_COMMAND_PING *)
 | BNoop                                                       (* PR_COMMAND_NOOP *)
 | BBounce (code what : N)                                     (* SETDATATREES, unknown codes: ERRORUNIMPLEMENTED; KICK/ADDBANS/.. without privilege: ERRORACCESSDENIED *)
@@ -351,6 +426,18 @@ Fixpoint bhandle (fuel : nat) (nest : nat) (b : bserver) (s : sid) (c : bcmd) {s
   | Some ss =>
     match c with
     | BBase c0 => Some (absorb b (handle fx nest (b_sv b) s c0))
+    | BSetSup flags items =>
+      Some (fold_left (fun b' it =>
+                         match get_session (b_sv b') s with
+                         | Some ss' => match fst it with
+                                       | [] => b'
+                                       | _ => bset_data_loop b' (s_id ss') (session_dir ss') (fst it) (snd it)
+                                                (flag_set flags c_SETDATANODE_FLAG_DONTCREATENODE)
+                                                (flag_set flags c_SETDATANODE_FLAG_DONTOVERWRITEDATA)
+                                                (flag_set flags c_SETDATANODE_FLAG_QUIET) true
+                                       end
+                         | None => b'
+                         end) items b)
     | BPing t => Some (enqueue b s (OPong t))
     | BNoop => Some b
     | BBounce code what => Some (enqueue b s (OBounce code what))
